@@ -50,6 +50,7 @@ package set
 //@   ensures[C06] result == nil && has(s.M, key) && s.M[key] != nil && setOK(s)
 //@   ensures[C06] old(has(s.M, key)) ==> s.M[key] == old(s.M[key])
 //@   ensures[C06] !old(has(s.M, key)) ==> fresh(s.M[key])
+//@   ensures old(has(s.M, key)) ==> unchanged(s.M)
 //@   ensures[C06] forall j int :: 0 <= j && j < len(items) ==> has(s.M[key], string(items[j]))
 //@   ensures[C06] forall x string :: old(member(s, key, x)) ==> has(s.M[key], x)
 //@   ensures[C06] forall x string :: has(s.M[key], x) && !old(member(s, key, x)) ==> (exists j int :: 0 <= j && j < len(items) && string(items[j]) == x)
@@ -156,7 +157,7 @@ package set
 //@   ensures[C06] result0 && len(item) > 0 && key1 != key2 ==> has(s.M[key2], string(item)) && !has(s.M[key1], string(item))
 //@   ensures[C06] !result0 ==> (forall k string, x string :: member(s, k, x) == old(member(s, k, x)))
 //@   ensures forall k string :: has(s.M, k) == old(has(s.M, k)) && s.M[k] == old(s.M[k])
-//@   modifies entries(s.M), entries(s.M[key1]), entries(s.M[key2])
+//@   modifies entries(s.M[key1]), entries(s.M[key2])
 //@   safety[C06,C20] panics
 
 //@ func Set.SUnion
